@@ -176,7 +176,8 @@ for p, tier in (("p8", "quick"), ("p3", "quick"), ("p5", "thorough"), ("p1", "th
          text="seek((pos,state)): window of sb/wb words at pos zero padded, state installed; pos beyond data refused")
     kani(f"range::u8_u16_{p}::dec_new", ["C02", "C18", "C10"], tier=tier, fns=[Q + "RangeDecoder::with_backend", Q + "RangeDecoder::read_point", Q + "RangeDecoder::maybe_exhausted"],
          text="decoder starts from the first sb/wb words zero padded and the full interval; exhaustion reporting at the start")
-for p, tier, tmo in (("p1", "quick", 600), ("p3", "quick", 900), ("p5", "thorough", 2400), ("p8", "thorough", 3600)):
+# (P = 8 did not finish in 60 min - symbolic 16-bit division with an 8-bit quotient; the Verus unit covers every P)
+for p, tier, tmo in (("p1", "quick", 600), ("p3", "quick", 900), ("p5", "thorough", 2400)):
     kani(f"range::u8_u16_{p}::dec_step", ["C10", "C02", "C06", "C20"], tier=tier, fns=[QD, Q + "RangeDecoder::from_raw_parts"], timeout=tmo,
          text="from every accepted (lower,range,point): Ok(symbol whose interval holds the quantile) or InvalidData iff quantile >= 2^P; invariants point-lower<range, range>=2^(sb-wb) re-established; mirrors the encoder's interval step")
 for m in ("u8_u32_p8", "u16_u32_p12", "u32_u64_p24"):
